@@ -44,6 +44,8 @@ def check_entity_name_and_type(name, type_):
 def check_entity_type(type_):
     if not type_:
         raise ValueError("String provided for entity type is empty!")
+    # a type that is not a string would only be refused once the entity exists
+    check_attr_type(type_, str)
 
 
 def check_entity_name(name):
